@@ -456,7 +456,11 @@ func c10Script(h c10History) (src string, ok bool) {
 		fmt.Fprintf(&sb, "\tnv, nok := nm[%s]\n\tprintln(\"n\", %s, nok)\n\tfor range nm {\n\t\tprintln(\"nil map ranged\")\n\t}\n", k0, nprobe("nv"))
 	}
 	if len(lits) == 0 && h.Init%2 == 0 {
-		fmt.Fprintf(&sb, "\tm := make(map[%s]%s)\n", kt, et)
+		if len(h.Ops)%3 == 0 {
+			fmt.Fprintf(&sb, "\tm := make(map[%s]%s, %d)\n", kt, et, len(h.Ops)%7+2) // with a size hint
+		} else {
+			fmt.Fprintf(&sb, "\tm := make(map[%s]%s)\n", kt, et)
+		}
 	} else {
 		fmt.Fprintf(&sb, "\tm := map[%s]%s{%s}\n", kt, et, strings.Join(lits, ", "))
 	}
@@ -479,6 +483,12 @@ func c10Script(h c10History) (src string, ok bool) {
 			n++
 			fmt.Fprintf(&sb, "\tc%d := maps.Clone(m)\n\tm[%s] = %s\n\tc%d[%s] = %s\n\tprintln(\"cl\", len(c%d), len(m))\n", n, k, val(op.V), n, c10ScriptKey(kind, op.K2), val(op.V+1), n)
 		case "range":
+			if n%3 == 2 {
+				// two range loops over the map that start on one source line: each has an iterator of its own
+				n++
+				fmt.Fprintf(&sb, "\tprintln(\"rb\")\n\tpairs%d := 0\n\tfor k, v := range m { for range m { pairs%d++ }\n\t\tprintln(\"rv\", k, %s)\n\t}\n\tprintln(\"re\")\n\tprintln(\"pairs\", pairs%d == len(m)*len(m))\n", n, n, elem.probe("v"), n)
+				break
+			}
 			if n%3 == 1 {
 				// the loop variable may have the name of the ranged map: the expression is evaluated before it exists
 				fmt.Fprintf(&sb, "\tprintln(\"rb\")\n\tfor k, m := range m {\n\t\tprintln(\"rv\", k, %s)\n\t}\n\tprintln(\"re\")\n", elem.probe("m"))
@@ -682,6 +692,13 @@ func c10CheckScript(h c10History, out string) string {
 						p = fmt.Sprintf("range did not visit key %v, which was in the map for the whole loop", k)
 					}
 				}
+			}
+			if p == "" && pos < len(lines) && strings.HasPrefix(lines[pos], "pairs ") {
+				// the nested same-line spelling also counted the visits of its inner loop
+				if lines[pos] != "pairs true" {
+					p = "an inner range loop on the same source line did not run len(m) times per outer visit"
+				}
+				pos++
 			}
 		}
 		if p != "" {
